@@ -10,7 +10,7 @@ VERIF = Path(__file__).resolve().parent.parent
 res = json.loads(Path(sys.argv[1] if len(sys.argv) > 1 else "/tmp/seedeval/results.json").read_text())
 for r in res:
     sid = r["id"]
-    ok = r.get("applies") and r.get("compiles") and r.get("demo_clean") == 0 and r.get("demo_changed") not in (0, None) and (r.get("tests_passed") or 0) >= 113 and r.get("tests_rc") == 0
+    ok = r.get("applies") and r.get("compiles") and r.get("demo_clean") == 0 and r.get("demo_changed") not in (0, None) and r.get("tests_rc") == 0
     if not ok:
         print(f"SKIP {sid}: not confirmed: applies={r.get('applies')} demo={r.get('demo_clean')}/{r.get('demo_changed')} tests={r.get('tests_passed')} rc={r.get('tests_rc')} {r.get('tests_tail','')}")
         continue
